@@ -279,9 +279,9 @@ namespace _fmt_basics {
 			int_length++;
 		} while (x != 0);
 
-		// Plus one for the decimal point
-		auto total_length = has_sign + int_length + (precision > 0 ? 1 + precision : 0);
-		auto pad_length = width > total_length ? width - total_length : 0;
+		// Plus one for the decimal point. 64-bit arithmetic: precision can be as large as INT_MAX.
+		int64_t total_length = int64_t{has_sign} + int_length + (precision > 0 ? int64_t{1} + precision : 0);
+		int64_t pad_length = width > total_length ? width - total_length : 0;
 
 		if (!left_justify) {
 			while (pad_length > 0) {
